@@ -54,7 +54,7 @@ Section Mono.
   Lemma rd_le_mono n off : le_res (rd_le rd1 n off) (rd_le rd2 n off).
   Proof. unfold rd_le. apply le_res_bind; [apply rd_bytes_mono|intro; apply le_res_refl]. Qed.
 
-  Ltac mono := repeat first [ apply Hle | apply rd_le_mono | mono_step ].
+  Ltac mono := repeat first [ apply Hle | apply rd_le_mono | apply rd_bytes_mono | mono_step ].
 
   Lemma ext_chain_mono : forall fuel arg max, le_res (ext_chain rd1 fuel arg max) (ext_chain rd2 fuel arg max).
   Proof.
